@@ -104,10 +104,12 @@ class Summary:
     direct_reads: set = field(default_factory=set)     # reads / writes performed by the function's own body (not via callees)
     direct_writes: set = field(default_factory=set)
     param_calls: set = field(default_factory=set)      # (param name, frozenset of ghosts restored around the call): calls of a callable parameter
+    cols_written: dict = field(default_factory=dict)   # root -> set of column names written through a subscript store ('*' = unknown)
 
     def key(self):
         return (frozenset(self.writes), frozenset(self.reads), frozenset(self.ret), frozenset(self.stores),
-                frozenset(self.unknown), frozenset(self.calls), frozenset(self.param_calls))
+                frozenset(self.unknown), frozenset(self.calls), frozenset(self.param_calls),
+                frozenset((k, frozenset(v)) for k, v in self.cols_written.items()))
 
 
 def _root_of(av):
@@ -453,9 +455,33 @@ class FuncAnalysis:
             base = self.expr(t.value)
             self.expr(t.slice)
             self.store_into(base, vals, node)
+            cols = self._literal_cols(t)
+            for av in base:
+                if av[0] == 'R':
+                    self.sum.cols_written.setdefault(self.norm_root(av[1]), set()).update(cols)
             self._flow_sink(t.slice, 'subscript-store index')
         else:
             self.expr(t)
+
+    def _literal_cols(self, t):
+        """column names written by `X[...] = v`, `X.loc[rows, cols] = v`, `X.at[row, col] = v` when they are literals"""
+        sl = t.slice
+        is_indexer = isinstance(t.value, ast.Attribute) and t.value.attr in ('loc', 'iloc', 'at', 'iat')
+
+        def names(n):
+            if isinstance(n, ast.Constant) and isinstance(n.value, str):
+                return {n.value}
+            if isinstance(n, (ast.List, ast.Tuple)) and all(isinstance(e, ast.Constant) and isinstance(e.value, str) for e in n.elts):
+                return {e.value for e in n.elts}
+            if isinstance(n, ast.Call) and isinstance(n.func, ast.Attribute) and n.func.attr == 'get_loc' and n.args \
+                    and isinstance(n.args[0], ast.Constant):
+                return {n.args[0].value}
+            return {'*'}
+        if is_indexer:
+            if isinstance(sl, ast.Tuple) and len(sl.elts) == 2:
+                return names(sl.elts[1])
+            return {'*'}
+        return names(sl)
 
     def s_For(self, s):
         it = self.expr(s.iter)
@@ -963,6 +989,9 @@ class FuncAnalysis:
             ip = kwnodes.get('inplace')
             if ip is not None and not (isinstance(ip, ast.Constant) and ip.value is False):
                 self.write_through(recv, node, f'.{name}(inplace=True)')
+                for av in recv:
+                    if av[0] == 'R':
+                        self.sum.cols_written.setdefault(self.norm_root(av[1]), set()).add('*')
         if name in ('savefig',):
             self.write('ghost:FS', node, 'savefig')
         if name in ('sample',) and 'random_state' not in kwargs:
@@ -1127,6 +1156,10 @@ class FuncAnalysis:
                             self.sum.stores.add((self.norm_root(t[1]), v))
                 elif t[0] == 'F' and t[-1] is not None:
                     self.contents.setdefault(t[-1], set()).update(vals)
+        for root, cols in s.cols_written.items():
+            for c in subst_root(root):
+                if c[0] == 'R':
+                    self.sum.cols_written.setdefault(self.norm_root(c[1]), set()).update(cols)
         self.sum.unknown |= {f'{u} (via {qualname})' for u in s.unknown}
         for lab, sinks in s.flows.items():
             self.sum.flows.setdefault(lab, set()).update({f'{x} (via {qualname})' if '(via' not in x else x for x in sinks})
